@@ -282,6 +282,11 @@ func (g *viewGen) addCommit(ps []int, kind string) {
 		}
 		return
 	case len(ps) == 0:
+		if c == 0 && rng.Intn(8) == 0 {
+			// the history starts with a binary file only: nothing is tracked and the arena is still empty
+			g.insert(c, v.paths[len(v.paths)-1], 1+rng.Intn(2), true)
+			return
+		}
 		for i := 0; i < 3; i++ {
 			g.insert(c, v.paths[rng.Intn(len(v.paths)-1)], 1+rng.Intn(3), false)
 		}
@@ -551,9 +556,9 @@ func wipeCases(c *Config) {
 			s = seen[pick%len(seen)]
 		}
 		for dist := 1; dist <= 4; dist++ {
-			for _, thr := range []int{0, 1, s, 1 << 30} {
+			for _, thr := range []int{0, 1, s, 1 << 30, -1} {
 				for _, disk := range []bool{false, true} {
-					if thr == 1<<30 && dist > 1 {
+					if (thr == 1<<30 || thr == -1) && dist > 1 {
 						continue
 					}
 					emitCase(c, caseIn{"wipe", h, G, S, runCfg{dist: dist, thr: thr, disk: disk, fault: "none", wrap: c.Rng.Intn(4) != 0}})
@@ -724,8 +729,9 @@ func truncAllCases(c *Config) {
 }
 
 // ---------------------------------------------------------------------------------------------
-// rerun (R3-1 object re-use, R3-2 error paths): the SAME pipeline and the SAME deployed BurndownAnalysis instance go through
-// Initialize + Run twice.  The prior run uses hibernation and succeeds, or fails (a temp file removed / truncated, a
+// rerun (R3-1 object re-use, R3-2 error paths): the SAME deployed BurndownAnalysis instance - in every third case the SAME
+// Pipeline object as well, otherwise a fresh Pipeline around it - goes through Initialize + Run twice; the prior run
+// analyses the same history, a parent-closed prefix of it, or (fresh Pipeline) another history.  The prior run uses hibernation and succeeds, or fails (a temp file removed / truncated, a
 // directory that does not exist) and leaves sleeping branches and their temp files behind; then the run of the case
 // (another distance / threshold / memory or disk, a fresh directory, no fault) is judged like any other run: the result
 // of the run without hibernation on a fresh instance, nothing left in its directory.
@@ -759,8 +765,16 @@ func rerunCases(c *Config) {
 		// every second prior run analyses ANOTHER history (same granularity and sampling)
 		other, _, _ := genHist(c, 6+c.Rng.Intn(8))
 		for k, pc := range priors {
-			if k%2 == 1 || k == 0 {
+			switch {
+			case k%3 == 1:
+				// the Pipeline object is used again as well
+				pc.samePipe = true
+			case k%2 == 1 || k == 0:
 				pc.hist = other
+			}
+			if pc.hist == nil && c.Rng.Intn(2) == 0 {
+				// the prior run analyses a prefix of the history only
+				pc.upto = 2 + c.Rng.Intn(h.N)
 			}
 			cfg := runCfg{dist: 1 + c.Rng.Intn(3), thr: c.Rng.Intn(2), disk: k%2 == 0, fault: "none", wrap: c.Rng.Intn(4) != 0, prior: pc}
 			if k == len(priors)-1 {
